@@ -12,7 +12,7 @@
    refinement (`_chiral_morgan`) is not covered by theorems: search in harness/checks/C01.py. *)
 From Coq Require Import ZArith List Bool Permutation Sorting.Sorted String.
 From Model Require Import PyBase PyHash Graph Morgan Stereo StereoRegistry Writer ChiralMorgan.
-From Proofs Require Import MorganProofs WriterInvProofs WriterStereoExt BfsExt BfsExt2 TraverseOrderExt InsertionOrderExt InsertionOrderExt2 ChiralMorganProofs StereoProofs StereoOrderExt StereoOrderExt2 RegistryRemapExt EnvLaws CtMapOrderExt AllStereoExt SameStereo EqHashExt ChiralDiscreteExt.
+From Proofs Require Import MorganProofs WriterInvProofs WriterStereoExt BfsExt BfsExt2 TraverseOrderExt InsertionOrderExt InsertionOrderExt2 ChiralMorganProofs StereoProofs StereoOrderExt StereoOrderExt2 RegistryRemapExt EnvLaws CtMapOrderExt AllStereoExt SameStereo EqHashExt ChiralDiscreteExt ChiralOrderExt.
 Import ListNotations.
 Open Scope Z_scope.
 
@@ -835,3 +835,64 @@ Theorem C01_canonical_eq_hash_structure_only :
   mol_eq (canon_of o) d' d = true /\ mol_hash (canon_of o) str_hash d' = mol_hash (canon_of o) str_hash d.
 Proof. exact canonical_eq_hash_structure_only. Qed.
 Print Assumptions C01_canonical_eq_hash_structure_only.
+
+(* `_chiral_morgan` does not depend on the iteration orders of its three stereo sets when the group[0] check never decides:
+   [uniform_run] (a statement about the run on ONE order) = in every pass of __differentiation every member of a group of even size
+   has a discrete environment and a computable sign, and the stereo elements are keys of the label dict.  Then no group reaches the
+   flip-half heuristic, and any other iteration orders give the same weights and the same `_morgan` inputs, call by call.  Real
+   refinement passes (meso / chiral pairs of equal centres, equal double bonds, equal allenes) are covered; groups whose
+   environment is NOT discrete (ring cis/trans pseudo-asymmetry, the flip-half heuristic) are not. *)
+Theorem C01_chiral_morgan_order_independent :
+  forall (h : list Z -> Z) (g : mol) (tabs : cmtabs) (ao : labels) (ord ord2 : cmorders),
+  Permutation (o_atoms ord) (o_atoms ord2) -> Permutation (o_ct ord) (o_ct ord2) -> Permutation (o_al ord) (o_al ord2) ->
+  uniform_run h g tabs (diff_fuel ord) ao (o_atoms ord) (o_ct ord) (o_al ord) ->
+  chiral_morgan h g tabs ao ord2 = chiral_morgan h g tabs ao ord.
+Proof. exact chiral_morgan_order_independent. Qed.
+Print Assumptions C01_chiral_morgan_order_independent.
+
+(* the hypothesis is decidable: [uniform_run_b] computes it (this is what the check evaluates on real molecules) *)
+Theorem C01_uniform_run_decidable :
+  forall (h : list Z -> Z) (g : mol) (tabs : cmtabs) (fuel : nat) (m : labels) (sa : list Z) (sct : list (Z * Z)) (sal : list Z),
+  uniform_run_b h g tabs fuel m sa sct sal = true -> uniform_run h g tabs fuel m sa sct sal.
+Proof. exact uniform_run_b_sound. Qed.
+Print Assumptions C01_uniform_run_decidable.
+
+(* renumbering + ANY iteration orders of the sets: the weights of the renumbered molecule are the renumbered weights *)
+Theorem C01_chiral_weights_renumbering_any_order :
+  forall (h : list Z -> Z) (g : mol) (s : Z -> Z) (tabs : cmtabs) (ord ord2 : cmorders) (ao : labels),
+  (forall x y, s x = s y -> x = y) ->
+  uniform_run_b h g tabs (diff_fuel ord) ao (o_atoms ord) (o_ct ord) (o_al ord) = true ->
+  Permutation (map s (o_atoms ord)) (o_atoms ord2) -> Permutation (map (ren_pairv s) (o_ct ord)) (o_ct ord2) ->
+  Permutation (map s (o_al ord)) (o_al ord2) ->
+  chiral_morgan h (ren_mol s g) (ren_cmtabs s tabs) (ren_labels s ao) ord2 = ren_cmres s (chiral_morgan h g tabs ao ord).
+Proof. exact chiral_weights_renumbering_any_order. Qed.
+Print Assumptions C01_chiral_weights_renumbering_any_order.
+
+(* END TO END for molecules whose classes become discrete THROUGH the stereo refinement, for every hash function: the molecule
+   renumbered by s (registries renamed, iteration orders of the stereo sets arbitrary); the run is uniform and the final weights
+   are injective on the atoms.  Then atoms_order, `_chiral_morgan` and the canonical string of the copy are the renamed ones.
+   (Re-insertion orders / re-listed registries of such molecules: not covered, see C01_canonical_string_structure_only for
+   constitutionally discrete molecules.) *)
+Theorem C01_canonical_string_renumbering_uniform :
+  forall (h : list Z -> Z) (ring ring' : Z -> bool) (g : mol) (s tb tb' : Z -> Z) (o : opts)
+         (tabs : stabs) (ctabs : cmtabs) (ord ord2 : cmorders) (ao W : labels) (tr : list labels),
+  wf_mol g = true -> (forall x y, s x = s y -> x = y) -> s 0 = 0 -> (forall n, In n (ids g) -> ring' (s n) = ring n) -> o_mapping o = false ->
+  atoms_order h ring g = Ok ao ->
+  uniform_run_b h g ctabs (diff_fuel ord) ao (o_atoms ord) (o_ct ord) (o_al ord) = true ->
+  chiral_morgan h g ctabs ao ord = Ok (W, tr) -> inj_on (ids g) (lbl W) ->
+  Permutation (map s (o_atoms ord)) (o_atoms ord2) -> Permutation (map (ren_pairv s) (o_ct ord)) (o_ct ord2) ->
+  Permutation (map s (o_al ord)) (o_al ord2) ->
+  atoms_order h ring' (ren_mol s g) = Ok (ren_labels s ao) /\
+  chiral_morgan h (ren_mol s g) (ren_cmtabs s ctabs) (ren_labels s ao) ord2 = Ok (ren_labels s W, map (ren_labels s) tr) /\
+  smiles_text (ren_mol s g) (lbl (ren_labels s W)) tb' o (ren_tabs s tabs) = map_order s (smiles_text g (lbl W) tb o tabs).
+Proof. exact canonical_string_renumbering_uniform. Qed.
+Print Assumptions C01_canonical_string_renumbering_uniform.
+
+(* non-vacuity: the meso-like diol: one refinement pass really happens (non-empty trace), the run is uniform, the final classes
+   are discrete, and the other iteration order of the stereo atoms gives the same result *)
+Theorem C01_chiral_order_example :
+  uniform_run_b hash_ztuple exc_g exc_tabs (diff_fuel exc_ord) exc_ao (o_atoms exc_ord) (o_ct exc_ord) (o_al exc_ord) = true /\
+  chiral_morgan hash_ztuple exc_g exc_tabs exc_ao (mkCmo [4; 2] [] []) = chiral_morgan hash_ztuple exc_g exc_tabs exc_ao exc_ord /\
+  exists W tr, chiral_morgan hash_ztuple exc_g exc_tabs exc_ao exc_ord = Ok (W, tr) /\ tr <> [] /\ NoDup (map snd W).
+Proof. exact chiral_order_example. Qed.
+Print Assumptions C01_chiral_order_example.
